@@ -48,6 +48,29 @@ func listingOf(dm *storage.DatasetManager) string {
 	return strings.TrimRight("L "+strings.Join(lines, " | "), " ")
 }
 
+// the harness's own record of the acknowledged catalogue history (what every node must list)
+type refPart struct {
+	num   int
+	nodes []uint64
+}
+type refDs struct {
+	num, dim, sp, r int
+	parts           []refPart
+}
+
+func refListing(ref map[int]*refDs) string {
+	var lines []string
+	for _, d := range ref {
+		var ps []string
+		for _, p := range d.parts {
+			ps = append(ps, fmt.Sprintf("%d:%s", p.num, u64s(p.nodes)))
+		}
+		lines = append(lines, fmt.Sprintf("%06d dim=%d sp=%d r=%d [%s]", d.num, d.dim, d.sp, d.r, strings.Join(ps, ";")))
+	}
+	sort.Strings(lines)
+	return strings.TrimRight("L "+strings.Join(lines, " | "), " ")
+}
+
 func waitApplied(cl *simCluster, n int) bool {
 	return waitFor(5*time.Second, func() bool {
 		for _, nd := range cl.nodes {
@@ -71,6 +94,7 @@ func runCatalogue(c *Ctx) {
 		uuidNums = map[uuid.UUID]int{}
 		cl := newSimCluster(N)
 		var live []uuid.UUID // dataset ids believed to exist
+		ref := map[int]*refDs{}
 		var createEntries [][]byte
 		nOps := 4 + r.Intn(c.Pick(8, 16))
 		applied := 0
@@ -89,6 +113,9 @@ func runCatalogue(c *Ctx) {
 					base = l
 					c.Op("list")
 					c.Res("%s", l)
+					if want := refListing(ref); l != want {
+						c.Violate("C14", "C14/listing-differs-from-history", fmt.Sprintf("node %d lists %q; the acknowledged history (creations, deletions, replica-set changes) gives %q", id, l, want), c.History())
+					}
 				} else if l != base {
 					c.Violate("C14", "C14/nodes-disagree", fmt.Sprintf("after the same log node %d lists %q, node %d lists %q", cl.ids[0], base, id, l), c.History())
 				}
@@ -114,6 +141,11 @@ func runCatalogue(c *Ctx) {
 				c.Op("create %d %d %d %d %s", unum(ds.VerifId()), dim, int(m.GetSpace()), repl, strings.Join(ps, ";"))
 				c.Res("ok")
 				live = append(live, ds.VerifId())
+				rd := &refDs{num: unum(ds.VerifId()), dim: int(dim), sp: int(m.GetSpace()), r: int(repl)}
+				for _, p := range m.GetPartitions() {
+					rd.parts = append(rd.parts, refPart{unum(uuid.FromBytesOrNil(p.GetId())), append([]uint64{}, p.GetNodeIds()...)})
+				}
+				ref[rd.num] = rd
 				cl.cat.mu.Lock()
 				createEntries = append(createEntries, cl.cat.log[len(cl.cat.log)-1])
 				cl.cat.mu.Unlock()
@@ -141,6 +173,11 @@ func runCatalogue(c *Ctx) {
 				} else {
 					c.Res("ok")
 					live = append(live, did)
+					rd := &refDs{num: unum(did), dim: int(d.GetDimension()), sp: int(d.GetSpace()), r: int(d.GetReplicationFactor())}
+					for _, p := range d.GetPartitions() {
+						rd.parts = append(rd.parts, refPart{unum(uuid.FromBytesOrNil(p.GetId())), append([]uint64{}, p.GetNodeIds()...)})
+					}
+					ref[rd.num] = rd
 				}
 			case k < 7: // delete (sometimes an absent id)
 				var id uuid.UUID
@@ -158,6 +195,7 @@ func runCatalogue(c *Ctx) {
 				waitApplied(cl, applied)
 				c.Op("delete %d", unum(id))
 				if err == nil {
+					delete(ref, unum(id))
 					c.Res("ok")
 				} else if strings.Contains(err.Error(), "not found") {
 					c.Res("notfound")
@@ -182,6 +220,24 @@ func runCatalogue(c *Ctx) {
 				propose(data)
 				c.Op("%s %d %d %d", name, unum(id), unum(pid), node)
 				c.Res("ok")
+				if rd := ref[unum(id)]; rd != nil {
+					for i := range rd.parts {
+						if rd.parts[i].num != unum(pid) {
+							continue
+						}
+						if name == "addnode" {
+							rd.parts[i].nodes = append(rd.parts[i].nodes, node)
+						} else {
+							var keep []uint64
+							for _, x := range rd.parts[i].nodes {
+								if x != node {
+									keep = append(keep, x)
+								}
+							}
+							rd.parts[i].nodes = keep
+						}
+					}
+				}
 				c.Nontrivial("replica-set-change")
 			}
 			observe()
